@@ -1248,6 +1248,21 @@ func (p *Proc) resolveType(ec *ectx, e ast.Expr) types.Type {
 				if tn, ok := pn.Imported().Scope().Lookup(x.Sel.Name).(*types.TypeName); ok {
 					return tn.Type()
 				}
+			} else if obj == nil {
+				// a library contract names a type of a package the calling package need not
+				// import: resolve it among the packages of the repository itself (by package
+				// name; deterministic: the smallest matching path)
+				best := ""
+				for path, tp := range p.ctx.pkgs {
+					if tp.Types != nil && tp.Types.Name() == id.Name && (best == "" || path < best) {
+						if _, ok := tp.Types.Scope().Lookup(x.Sel.Name).(*types.TypeName); ok {
+							best = path
+						}
+					}
+				}
+				if best != "" {
+					return p.ctx.pkgs[best].Types.Scope().Lookup(x.Sel.Name).(*types.TypeName).Type()
+				}
 			}
 		}
 	case *ast.StarExpr:
